@@ -21,6 +21,11 @@ class Handles:
         self.ping = self.eng.init_heap.get((SELF, "_pingReq"))
         self._none_stores = None
 
+    def can_register(self, reg):
+        if not hasattr(self, "_canreg"):
+            self._canreg = {e.a["reg"] for tr in contexts(self.cat) for e in tr.events if e.kind == "REG"}
+        return reg in self._canreg
+
     # ---- locations --------------------------------------------------------------
     def obj_location(self, obj, tr):
         """Abstract owner of a handle field: ('ping',) ('conn',) ('win', registry) or None."""
@@ -197,6 +202,8 @@ class Handles:
                 absent = facts.get(("truthy", h)) is False or facts.get(("nonnull", h)) is False
                 out.append((tr, "keepalive %s stopped and cleared before IDLE" % fld, absent or (bool(cn) and bool(cl)), cn[0] if cn else None))
             for reg in TIMED:
+                if not self.can_register(reg):
+                    continue
                 ok, lp = cancels(pre, reg)
                 out.append((tr, "retry alarms of %s cancelled before IDLE" % reg, ok, lp))
         return out
